@@ -1,1 +1,465 @@
-//! (module to be written)
+//! Font-metric arithmetic (C17): fix_word text, store_scaled, PLtoTF's table compression, next-larger
+//! chains. Transliterations of tftopl.web / pltotf.web / tex.web with `i64` arithmetic; Pascal range
+//! errors and `abort`s are explicit `Err`s. No repository types.
+//!
+//! A fix_word is a 32-bit two's complement integer holding value * 2^20.
+
+pub const FIX_UNITY: i64 = 1 << 20; // @'4000000
+
+// ------------------------------------------------------------------------------------------------
+// TFtoPL §40-43: out_fix
+// ------------------------------------------------------------------------------------------------
+
+/// TFtoPL §40-43 `out_fix` without the leading " R": the decimal text of the fix_word whose four
+/// bytes are the big-endian two's complement representation of `x` (any 32-bit pattern).
+pub fn print_fix(x: i32) -> String {
+    let [b0, b1, b2, b3] = x.to_be_bytes().map(|b| b as i64);
+    // §40: a:=(tfm[k]*16)+(tfm[k+1] div 16); f:=((tfm[k+1] mod 16)*@'400+tfm[k+2])*@'400+tfm[k+3]
+    let mut a: i64 = b0 * 16 + b1 / 16;
+    let mut f: i64 = ((b1 % 16) * 0o400 + b2) * 0o400 + b3;
+    let mut out = String::new();
+    // §43 reduce negative to positive
+    if a > 0o3777 {
+        out.push('-');
+        a = 0o10000 - a;
+        if f > 0 {
+            f = 0o4000000 - f;
+            a -= 1;
+        }
+    }
+    // §41 integer part
+    out.push_str(&a.to_string());
+    // §42 fraction part
+    out.push('.');
+    f = 10 * f + 5;
+    let mut delta: i64 = 10;
+    loop {
+        if delta > 0o4000000 {
+            f = f + 0o2000000 - delta / 2;
+        }
+        out.push((b'0' + (f / 0o4000000) as u8) as char);
+        f = 10 * (f % 0o4000000);
+        delta *= 10;
+        if f <= delta {
+            break;
+        }
+    }
+    out
+}
+
+/// Does printing this text have taken the rounding branch of §42? The k-th pass of the loop starts with
+/// delta = 10^k, and `delta > 2^20` first holds for k = 7: exactly the texts with a 7th fraction digit.
+pub fn text_used_rounding_branch(text: &str) -> bool {
+    text.split('.').nth(1).map(|f| f.len() >= 7).unwrap_or(false)
+}
+
+// ------------------------------------------------------------------------------------------------
+// PLtoTF §62-66: get_fix
+// ------------------------------------------------------------------------------------------------
+
+#[derive(Debug, Clone, Copy, PartialEq, Eq)]
+pub enum FixErr {
+    /// §62 'An "R" or "D" value is needed here' (the text handed to `parse_fix` starts after the R/D, so
+    /// this is only produced by `parse_fix_prop`)
+    NeedsRorD,
+    /// §64, §62 'Real constants must be less than 2048'
+    TooBig,
+}
+
+/// PLtoTF §62-66 `get_fix` on the characters that follow the `R`/`D` (the rest of the property value;
+/// scanning stops at the first character that cannot continue the number, as `get_next` would leave
+/// it to `finish_the_property`). Returns the fix_word, or the error PLtoTF reports (after which
+/// PLtoTF's value is 0).
+pub fn parse_fix(text: &str) -> Result<i64, FixErr> {
+    let s: Vec<u8> = text.bytes().collect();
+    let mut i = 0usize;
+    // §63 scan the blanks and/or signs
+    let mut negative = false;
+    while i < s.len() {
+        match s[i] {
+            b' ' | b'+' => i += 1,
+            b'-' => {
+                negative = !negative;
+                i += 1
+            }
+            _ => break,
+        }
+    }
+    // §64 integer part
+    let mut acc: i64 = 0;
+    while i < s.len() && s[i].is_ascii_digit() {
+        acc = acc * 10 + (s[i] - b'0') as i64;
+        if acc >= 2048 {
+            return Err(FixErr::TooBig);
+        }
+        i += 1;
+    }
+    let int_part = acc;
+    acc = 0;
+    // §66 fraction part
+    if i < s.len() && s[i] == b'.' {
+        i += 1;
+        let mut fraction_digits = [0i64; 8];
+        let mut j = 0usize;
+        while i < s.len() && s[i].is_ascii_digit() {
+            if j < 7 {
+                j += 1;
+                fraction_digits[j] = 0o10000000 * (s[i] - b'0') as i64;
+            }
+            i += 1;
+        }
+        acc = 0;
+        while j > 0 {
+            acc = fraction_digits[j] + acc / 10;
+            j -= 1;
+        }
+        acc = (acc + 10) / 20;
+    }
+    // §62
+    if acc >= FIX_UNITY && int_part == 2047 {
+        return Err(FixErr::TooBig);
+    }
+    acc += int_part * FIX_UNITY;
+    Ok(if negative { -acc } else { acc })
+}
+
+// ------------------------------------------------------------------------------------------------
+// TeX §568, §571-575: store_scaled
+// ------------------------------------------------------------------------------------------------
+
+#[derive(Debug, Clone, Copy, PartialEq, Eq)]
+pub enum ScaledErr {
+    /// §568: `read_sixteen(z)` rejects a design size whose first byte exceeds 127, and `if z<unity then abort`
+    DesignSizeOutOfRange,
+    /// §571: the first byte of the fix_word is neither 0 nor 255 (|value| >= 16)
+    ValueOutOfRange,
+}
+
+/// tex.web §568 + §572 + §571: the scaled value TeX stores for the fix_word `x` in a font whose
+/// design size is the fix_word `design_size`, loaded at its design size (s = -1000).
+pub fn store_scaled(x: i32, design_size: i32) -> Result<i64, ScaledErr> {
+    // §568: z is the top 28 bits of the design size: fget; read_sixteen(z); fget; z:=z*@'400+fbyte;
+    //       fget; z:=(z*@'20)+(fbyte div@'20); if z<unity then abort
+    let [d0, d1, d2, d3] = design_size.to_be_bytes().map(|b| b as i64);
+    if d0 > 127 {
+        return Err(ScaledErr::DesignSizeOutOfRange);
+    }
+    let mut z: i64 = ((d0 * 0o400 + d1) * 0o400 + d2) * 0o20 + d3 / 0o20;
+    if z < 0o200000 {
+        return Err(ScaledErr::DesignSizeOutOfRange);
+    }
+    // §572
+    let mut alpha: i64 = 16;
+    while z >= 0o40000000 {
+        z /= 2;
+        alpha += alpha;
+    }
+    let beta = 256 / alpha;
+    let alpha = alpha * z;
+    // §571
+    let [a, b, c, d] = x.to_be_bytes().map(|b| b as i64);
+    let sw = (((d * z) / 0o400 + c * z) / 0o400 + b * z) / beta;
+    match a {
+        0 => Ok(sw),
+        255 => Ok(sw - alpha),
+        _ => Err(ScaledErr::ValueOutOfRange),
+    }
+}
+
+// ------------------------------------------------------------------------------------------------
+// PLtoTF §75-80: min_cover, shorten, set_indices
+// ------------------------------------------------------------------------------------------------
+
+/// Sorted, deduplicated copy (PLtoTF's `sort_in` keeps its lists sorted and free of duplicates, §74).
+pub fn sorted_distinct(values: &[i64]) -> Vec<i64> {
+    let mut v = values.to_vec();
+    v.sort();
+    v.dedup();
+    v
+}
+
+/// PLtoTF §75 `min_cover(h,d)`: the number of intervals of length `d` needed to cover the sorted
+/// distinct values when each interval starts at the smallest value not yet covered, and `next_d`,
+/// the smallest d' > d that would give a different cover (None = "infinity").
+pub fn min_cover(sorted: &[i64], d: i64) -> (usize, Option<i64>) {
+    let mut count = 0;
+    let mut next_d: Option<i64> = None;
+    let mut p = 0;
+    while p < sorted.len() {
+        count += 1;
+        let l = sorted[p];
+        while p + 1 < sorted.len() && sorted[p + 1] <= l + d {
+            p += 1;
+        }
+        p += 1;
+        if p < sorted.len() {
+            let g = sorted[p] - l;
+            if next_d.map(|n| g < n).unwrap_or(true) {
+                next_d = Some(g);
+            }
+        }
+    }
+    (count, next_d)
+}
+
+/// The classes of the greedy cover with tolerance `d`, as index ranges into `sorted`.
+pub fn greedy_classes(sorted: &[i64], d: i64) -> Vec<(usize, usize)> {
+    let mut out = vec![];
+    let mut p = 0;
+    while p < sorted.len() {
+        let start = p;
+        let l = sorted[p];
+        while p + 1 < sorted.len() && sorted[p + 1] <= l + d {
+            p += 1;
+        }
+        out.push((start, p));
+        p += 1;
+    }
+    out
+}
+
+/// Brute force: the smallest tolerance d >= 0 such that the values can be split into at most `m`
+/// classes each of spread <= d. (Any partition into classes of spread <= d has at least as many
+/// classes as the greedy cover, and a feasible d can be lowered to the nearest pairwise difference, so
+/// trying 0 and every pairwise difference in increasing order is exhaustive.) None if m = 0 and the
+/// list is not empty.
+pub fn min_tolerance(sorted: &[i64], m: usize) -> Option<i64> {
+    if sorted.is_empty() {
+        return Some(0);
+    }
+    if m == 0 {
+        return None;
+    }
+    let mut cand: Vec<i64> = vec![0];
+    for i in 0..sorted.len() {
+        for j in i + 1..sorted.len() {
+            cand.push(sorted[j] - sorted[i]);
+        }
+    }
+    cand.sort();
+    cand.dedup();
+    cand.into_iter().find(|d| min_cover(sorted, *d).0 <= m)
+}
+
+/// PLtoTF §76-77 `shorten(h,m)` transliterated (doubling, then stepping through `next_d`).
+pub fn shorten(sorted: &[i64], m: usize) -> i64 {
+    if sorted.len() <= m {
+        return 0;
+    }
+    let (_, nd) = min_cover(sorted, 0);
+    let mut d = nd.expect("more than m >= 0 values, so there is a gap");
+    let mut k;
+    loop {
+        d += d;
+        k = min_cover(sorted, d).0;
+        if k <= m {
+            break;
+        }
+    }
+    d /= 2;
+    let (mut k, mut nd) = min_cover(sorted, d);
+    while k > m {
+        d = nd.expect("k > m >= 1 means there is a further interval");
+        let r = min_cover(sorted, d);
+        k = r.0;
+        nd = r.1;
+    }
+    d
+}
+
+/// Result of a compression: `table[0]` is unused here (the TFM tables start with a zero entry that
+/// the caller owns); `table[k]` for k >= 1 is the representative of class k; `index[i]` is the class
+/// of `sorted[i]`.
+#[derive(Debug, Clone, PartialEq, Eq)]
+pub struct Compressed {
+    pub tolerance: i64,
+    pub reps: Vec<i64>,
+    pub index: Vec<usize>,
+}
+
+/// PLtoTF §78 `set_indices(h,d)` exactly, including the `excess` counter of §77/§78: merging stops
+/// (d becomes 0) as soon as `excess = n - m` words have been removed.
+pub fn pltotf_compress(sorted: &[i64], m: usize) -> Compressed {
+    let mut d = shorten(sorted, m);
+    let tolerance = d;
+    let mut excess: i64 = sorted.len() as i64 - m as i64; // only meaningful when the list is shortened
+    let shortened = sorted.len() > m;
+    let mut reps = vec![];
+    let mut index = vec![0usize; sorted.len()];
+    let mut p = 0;
+    let mut cls = 0;
+    while p < sorted.len() {
+        cls += 1;
+        let l = sorted[p];
+        index[p] = cls;
+        while p + 1 < sorted.len() && sorted[p + 1] <= l + d {
+            p += 1;
+            index[p] = cls;
+            if shortened {
+                excess -= 1;
+                if excess == 0 {
+                    d = 0;
+                }
+            }
+        }
+        reps.push(l + (sorted[p] - l) / 2);
+        p += 1;
+    }
+    Compressed { tolerance, reps, index }
+}
+
+/// The plain greedy compression (no `excess` counter): every class of the greedy cover at the
+/// minimal tolerance is merged, representative = PLtoTF's midpoint `l + (u-l) div 2`.
+pub fn greedy_compress(sorted: &[i64], m: usize) -> Option<Compressed> {
+    let tolerance = min_tolerance(sorted, m)?;
+    let mut reps = vec![];
+    let mut index = vec![0usize; sorted.len()];
+    for (k, (a, b)) in greedy_classes(sorted, tolerance).into_iter().enumerate() {
+        for i in a..=b {
+            index[i] = k + 1;
+        }
+        reps.push(sorted[a] + (sorted[b] - sorted[a]) / 2);
+    }
+    Some(Compressed { tolerance, reps, index })
+}
+
+// ------------------------------------------------------------------------------------------------
+// TFtoPL §84 (= PLtoTF §110-113): next-larger chains
+// ------------------------------------------------------------------------------------------------
+
+#[derive(Debug, Clone, Copy, PartialEq, Eq, PartialOrd, Ord)]
+pub enum NlWarning {
+    /// 'Character list link to nonexistent character' (TFtoPL §84) / 'The character NEXTLARGER than c
+    /// had no CHARACTER spec' (PLtoTF §111)
+    NonExistent { original: u8, next_larger: u8 },
+    /// 'Cycle in a character list! Character c now ends the list.' (TFtoPL §84) / 'A cycle of
+    /// NEXTLARGER characters has been broken at c' (PLtoTF §113)
+    Cycle { original: u8, next_larger: u8 },
+}
+
+/// TFtoPL §84, character by character in increasing order: a link to a nonexistent character is
+/// reported and (TFtoPL, `drop_nonexistent`) removed / (PLtoTF §111, which creates the character) kept;
+/// then `while (r<c) and (tag(r)=list_tag) do r:=rem(r)`; `r=c` is a cycle, cut at `c`.
+/// `link[c]` is the NEXTLARGER of c. Links out of nonexistent characters are outside the domain
+/// (TFtoPL never visits such a character, PLtoTF cannot express it).
+pub fn next_larger(link: &[Option<u8>; 256], exists: &dyn Fn(u8) -> bool, drop_nonexistent: bool) -> ([Option<u8>; 256], Vec<NlWarning>) {
+    let mut tag = *link;
+    let mut warnings = vec![];
+    for c in 0..=255u8 {
+        let Some(first) = tag[c as usize] else { continue };
+        if !exists(first) {
+            warnings.push(NlWarning::NonExistent { original: c, next_larger: first });
+            if drop_nonexistent {
+                tag[c as usize] = None;
+                continue;
+            }
+        }
+        let mut r = first;
+        while r < c {
+            match tag[r as usize] {
+                Some(n) => r = n,
+                None => break,
+            }
+        }
+        if r == c {
+            warnings.push(NlWarning::Cycle { original: c, next_larger: first });
+            tag[c as usize] = None;
+        }
+    }
+    (tag, warnings)
+}
+
+/// The same function by definition: remove (or keep) links to nonexistent characters, then in every
+/// cycle of the functional graph remove the link that leaves the cycle's largest character.
+pub fn next_larger_by_definition(link: &[Option<u8>; 256], exists: &dyn Fn(u8) -> bool, drop_nonexistent: bool) -> ([Option<u8>; 256], Vec<NlWarning>) {
+    let mut g = *link;
+    let mut warnings = vec![];
+    for c in 0..=255u8 {
+        if let Some(n) = g[c as usize] {
+            if !exists(n) {
+                warnings.push(NlWarning::NonExistent { original: c, next_larger: n });
+                if drop_nonexistent {
+                    g[c as usize] = None;
+                }
+            }
+        }
+    }
+    let mut on_cycle_max: Vec<u8> = vec![];
+    for s in 0..=255u8 {
+        // is s on a cycle? walk at most 256 steps
+        let mut cur = s;
+        let mut members = vec![s];
+        let mut is_cycle = false;
+        for _ in 0..256 {
+            match g[cur as usize] {
+                None => break,
+                Some(n) => {
+                    if n == s {
+                        is_cycle = true;
+                        break;
+                    }
+                    members.push(n);
+                    cur = n;
+                }
+            }
+        }
+        if is_cycle && *members.iter().max().unwrap() == s {
+            on_cycle_max.push(s);
+        }
+    }
+    for c in on_cycle_max {
+        warnings.push(NlWarning::Cycle { original: c, next_larger: g[c as usize].unwrap() });
+    }
+    for w in &warnings {
+        if let NlWarning::Cycle { original, .. } = w {
+            g[*original as usize] = None;
+        }
+    }
+    (g, warnings)
+}
+
+/// The chain of next-larger characters that starts after `c`.
+pub fn chain(g: &[Option<u8>; 256], c: u8) -> Vec<u8> {
+    let mut out = vec![];
+    let mut cur = c;
+    while let Some(n) = g[cur as usize] {
+        out.push(n);
+        cur = n;
+        if out.len() > 256 {
+            break; // cannot happen after the cycles were cut; the caller treats > 256 as an error
+        }
+    }
+    out
+}
+
+#[cfg(test)]
+mod tests {
+    use super::*;
+    #[test]
+    fn fix_text() {
+        assert_eq!(print_fix(0), "0.0");
+        assert_eq!(print_fix(1 << 20), "1.0");
+        assert_eq!(print_fix(-(1 << 20)), "-1.0");
+        assert_eq!(print_fix(i32::MIN), "-2048.0");
+        assert_eq!(print_fix(1), "0.000001");
+        assert_eq!(parse_fix("0.000001"), Ok(1));
+        assert_eq!(parse_fix(" -1.5"), Ok(-(3 << 19)));
+        assert_eq!(parse_fix("2047.9999999"), Err(FixErr::TooBig));
+        assert_eq!(parse_fix("2048"), Err(FixErr::TooBig));
+    }
+    #[test]
+    fn scaled() {
+        assert_eq!(store_scaled(1 << 20, 10 << 20), Ok(10 << 16));
+        assert_eq!(store_scaled(-(1 << 20), 10 << 20), Ok(-(10 << 16)));
+        assert_eq!(store_scaled(1 << 24, 10 << 20), Err(ScaledErr::ValueOutOfRange));
+        assert_eq!(store_scaled(1, (1 << 20) - 1), Err(ScaledErr::DesignSizeOutOfRange));
+    }
+    #[test]
+    fn compress_models_agree() {
+        let s = [1, 2, 10, 11];
+        assert_eq!(min_tolerance(&s, 3), Some(1));
+        assert_eq!(shorten(&s, 3), 1);
+        assert_eq!(pltotf_compress(&s, 3).reps, vec![1, 10, 11]);
+        assert_eq!(greedy_compress(&s, 3).unwrap().reps, vec![1, 10]);
+    }
+}
